@@ -427,3 +427,31 @@ func (c *Case) Preprocess() (parser.Expr, error) {
 	_ = end
 	return promql.PreprocessExpr(expr, c.tStart(), c.tEnd()), nil
 }
+
+// atInAggParam: an aggregation parameter holds a selector with an @ modifier. The reference
+// engine's preprocessing does not visit parameters, so the selector is neither pinned nor wrapped
+// as step-invariant: its window slides with the step, over whatever the storage happens to return
+// outside the range that was selected (one querier for the whole query in the reference engine,
+// one per selector in this one). What comes out is not determined by the query and the data.
+func atInAggParam(e parser.Expr) bool {
+	found := false
+	parser.Inspect(e, func(n parser.Node, _ []parser.Node) error {
+		if a, ok := n.(*parser.AggregateExpr); ok && a.Param != nil {
+			parser.Inspect(a.Param, func(m parser.Node, _ []parser.Node) error {
+				switch x := m.(type) {
+				case *parser.VectorSelector:
+					if x.Timestamp != nil || x.StartOrEnd != 0 {
+						found = true
+					}
+				case *parser.SubqueryExpr:
+					if x.Timestamp != nil || x.StartOrEnd != 0 {
+						found = true
+					}
+				}
+				return nil
+			})
+		}
+		return nil
+	})
+	return found
+}
